@@ -114,6 +114,13 @@ def gen():
         w("pub proof fn lemma_upto_mono_%s(p: %s)" % (name, name))
         w("    ensures " + ", ".join(["enc_%s_upto_%d(p).len() <= enc_%s_fields(p).len()" % (name, k, name) for k in range(0, len(props) + 1)]) + ", enc_%s_body(p).len() == enc_%s_fields(p).len() + enc_ups(p.user_properties@).len()" % (name, name))
         w("{ reveal(enc_%s_body); %s }" % (name, " ".join("reveal(enc_%s_upto_%d);" % (name, kk) for kk in range(1, len(props) + 1))))
+        w("pub proof fn lemma_upsok_%s(p: %s)" % (name, name))
+        w("    requires %s_fields_ok(p)" % name)
+        w("    ensures ups_ok(p.user_properties@)")
+        w("{ reveal(%s_fields_ok); }" % name)
+        w("pub proof fn lemma_body_len_%s(p: %s)" % (name, name))
+        w("    ensures enc_%s_body(p).len() == enc_%s_fields(p).len() + p.user_properties@.len() + ups_sum4(p.user_properties@)" % (name, name))
+        w("{ reveal(enc_%s_body); lemma_ups_len(p.user_properties@); }" % name)
         w("#[verifier::rlimit(1200)]")
         w("#[verifier::spinoff_prover]")
         w("pub proof fn lemma_acc_%s(acc: Seq<u8>, p: %s)" % (name, name))
@@ -125,6 +132,29 @@ def gen():
             w("    lemma_put(acc_%s_%d(acc, p), 0x%02Xu8);" % (name, k - 1, pid))
             w("    assert(acc_%s_%d(acc, p) =~= acc + enc_%s_upto_%d(p));" % (name, k, name, k))
         w("}")
+        # per-step lemmas; the step facts themselves are *named* assertions in the function bodies (`#len-k`, `#wr-k`)
+        for k, q in enumerate(props, 1):
+            pid, ty, f = PROPS[q]
+            plen = {"bool": "(if p.%s is Some { 2nat } else { 0nat })", "qos": "(if p.%s is Some { 2nat } else { 0nat })", "u16": "(if p.%s is Some { 3nat } else { 0nat })",
+                    "u32": "(if p.%s is Some { 5nat } else { 0nat })", "str": "(match p.%s { Some(v) => 3 + sbytes(v@).len(), None => 0nat })",
+                    "topic": "(match p.%s { Some(v) => 3 + sbytes(v.text()).len(), None => 0nat })", "bin": "(match p.%s { Some(v) => 3 + v@.len(), None => 0nat })",
+                    "varint": "(match p.%s { Some(v) => 1 + vlen(v.0 as nat), None => 0nat })"}[ty] % f
+            w("#[verifier::opaque]")
+            w("pub open spec fn %s_plen_%d(p: %s) -> nat { %s }" % (name, k, name, plen))
+            okf = "%s(p.%s)" % (OKFN[ty], f) if ty in OKFN else "true"
+            w("pub proof fn lemma_%s_pbound_%d(p: %s)" % (name, k, name))
+            w("    requires %s_fields_ok(p)" % name)
+            w("    ensures %s_plen_%d(p) <= 65538, %s" % (name, k, okf))
+            w("{ reveal(%s_fields_ok); reveal(%s_plen_%d); }" % (name, name, k))
+            w("pub proof fn lemma_%s_lstep_%d(p: %s, b: nat, l0: nat, l1: nat)" % (name, k, name))
+            w("    requires %s_fields_ok(p), l0 == b + enc_%s_upto_%d(p).len(), l1 == l0 + %s_plen_%d(p)" % (name, name, k - 1, name, k))
+            w("    ensures l1 == b + enc_%s_upto_%d(p).len(), l1 <= b + enc_%s_fields(p).len()" % (name, k, name))
+            vl = " if let Some(v) = p.%s { lemma_vlen_enc(v.0 as nat); }" % f if ty == "varint" else ""
+            w("{ reveal(enc_%s_upto_%d); reveal(%s_fields_ok); reveal(%s_plen_%d); lemma_upto_mono_%s(p);%s }" % (name, k, name, name, k, name, vl))
+            w("pub proof fn lemma_%s_wstep_%d(w1: Seq<u8>, p: %s, wprev: Seq<u8>, wnow: Seq<u8>)" % (name, k, name))
+            w("    requires wprev == acc_%s_%d(w1, p), wnow == put_%s(wprev, 0x%02Xu8, p.%s)" % (name, k - 1, ty, pid, f))
+            w("    ensures wnow == acc_%s_%d(w1, p)" % (name, k))
+            w("{ reveal(acc_%s_%d); }" % (name, k))
         w("#[verifier::opaque]")
         w("pub open spec fn enc_%s_body(p: %s) -> Seq<u8> { enc_%s_fields(p) + enc_ups(p.user_properties@) }" % (name, name, name))
         allf = [PROPS[q][2] for q in props]
@@ -222,6 +252,49 @@ def gen():
         w("    ensures enc_%s_body(nw).len() == enc_%s_body(old).len() + enc_up(v).len()," % (name, name))
         w("            %s_fields_ok(old) && sbytes(v.name@).len() <= 65535 && sbytes(v.value@).len() <= 65535 ==> %s_fields_ok(nw)" % (name, name))
         w("{ reveal(%s_fields_ok); reveal(enc_%s_body); %s assert(nw.user_properties@.drop_last() =~= old.user_properties@); }" % (name, name, " ".join("reveal(enc_%s_upto_%d);" % (name, kk) for kk in range(1, len(props) + 1))))
+        RTY = {"bool": "bool", "qos": "QoS", "u16": "u16", "u32": "u32", "str": "Arc<String>", "topic": "TopicName", "bin": "Bytes", "varint": "VarByteInt"}
+        for q in props + ["UserProperty"]:
+            if q == "UserProperty":
+                stepc = "step_up(s.skip(1))"
+                rty = "UserProperty"
+                same = " && ".join(["nw.%s == acc.%s" % (g, g) for g in allfields] + ["nw.user_properties@ == acc.user_properties@.push(v)"])
+                extra = "n == 4 + sbytes(v.name@).len() + sbytes(v.value@).len() && sbytes(v.name@).len() <= 65535 && sbytes(v.value@).len() <= 65535"
+                lenexpr = "len + 1 + n"
+                lencall = "lemma_%s_len_UserProperty(acc, nw, v);" % name
+                eqs = "assert(nw.user_properties == mk_vec(acc.user_properties@.push(v))) by { broadcast use group_ext; }"
+                upd = "%s { user_properties: mk_vec(acc.user_properties@.push(v)), ..acc }" % name
+            else:
+                pid, ty, f = PROPS[q]
+                stepc = "step_%s(s.skip(1), PropertyId::%s, acc.%s)" % (ty, q, f)
+                rty = RTY[ty]
+                same = " && ".join(["nw.%s == Some(v)" % f] + ["nw.%s == acc.%s" % (g, g) for g in allfields if g != f] + ["nw.user_properties == acc.user_properties"])
+                extra = {"str": "n == 2 + sbytes(v@).len() && sbytes(v@).len() <= 65535", "topic": "n == 2 + sbytes(v.text()).len() && sbytes(v.text()).len() <= 65535",
+                         "bin": "n == 2 + v@.len() && v@.len() <= 65535", "varint": "v.0 < 268435456"}.get(ty, "true")
+                lenexpr = "len + 1 + vlen(v.0 as nat)" if ty == "varint" else "len + 1 + n"
+                lencall = "lemma_%s_len_%s(acc, nw);%s" % (name, q, " lemma_vlen_enc(v.0 as nat);" if ty == "varint" else "")
+                eqs = ""
+                upd = "%s { %s: Some(v), ..acc }" % (name, f)
+            w("pub proof fn lemma_%s_done_%s(s0: Seq<u8>, s: Seq<u8>, plen: nat, len: nat, acc: %s, used: nat, pt: PacketType, nw: %s, v: %s, n: nat, len2: nat)" % (name, q, name, name, rty))
+            pre = ("plen > len && s.len() > 0 && property_id_of(s[0]) == Ok::<PropertyId, ErrorV5>(PropertyId::%s) && used <= s0.len() && s == s0.skip(used as int)" % q
+                   + " && %s == PR::<%s, ErrorV5>::Ok(v, n) && 1 + n <= s.len()" % (stepc, rty)
+                   + " && %s_fields_ok(acc) && len == enc_%s_body(acc).len()" % (name, name)
+                   + " && %s && len2 == %s && %s" % (same, lenexpr, extra))
+            # the facts the arm must establish are an antecedent, not a `requires`: if the code stops establishing them the loop invariant (a named obligation) fails, not a proof hint
+            w("    ensures (%s) ==>" % pre)
+            w("        p5_%s_loop(s, plen, len, acc, used, pt) == p5_%s_loop(s0.skip((used + 1 + n) as int), plen, len2, nw, used + 1 + n, pt)" % (name, name))
+            w("        && s.skip(1).skip(n as int) == s0.skip((used + 1 + n) as int)")
+            w("        && %s_fields_ok(nw) && len2 == enc_%s_body(nw).len()" % (name, name))
+            w("{")
+            w("  if %s {" % pre)
+            w("    lemma_%s_arm_%s(s, plen, len, acc, used, pt);" % (name, q))
+            w("    %s" % lencall)
+            w("    assert(s.skip(1).skip(n as int) =~= s0.skip((used + 1 + n) as int));")
+            w("    assert(s.skip(1 + n as int) =~= s0.skip((used + 1 + n) as int));")
+            if eqs:
+                w("    %s" % eqs)
+            w("    assert(nw == %s);" % upd)
+            w("  }")
+            w("}")
         w("pub proof fn lemma_%s_len_empty()" % name)
         w("    ensures enc_%s_body(empty_%s()).len() == 0, %s_fields_ok(empty_%s())" % (name, name, name, name))
         w("{ reveal(%s_fields_ok); reveal(enc_%s_body); %s broadcast use group_ext; }" % (name, name, " ".join("reveal(enc_%s_upto_%d);" % (name, kk) for kk in range(1, len(props) + 1))))
@@ -257,31 +330,34 @@ def gen():
         w("    let ghost p0 = properties;")
         w("    let ghost len0 = len as nat;")
         w("    proof { lemma_%s_head(sc, property_len as nat, len0, p0, used, %s); }" % (name, pt))
-        w("  @bottom")
-        w("    proof {")
-        w("        let n = (sc.len() - reader.stream().len()) as nat;")
-        w("        assert(n >= 1);")
-        w("        assert(sc.skip(1).skip(n as int - 1) =~= sc.skip(n as int));")
-        w("        assert(reader.stream() =~= s0.skip(used as int + n as int));")
-        w("        used = used + n;")
-        w("    }")
         for q in props + ["UserProperty"]:
             w("@after `PropertyId :: %s => {`" % q)
             w("  proof { lemma_%s_arm_%s(sc, property_len as nat, len0, p0, used, %s); }" % (name, q, pt))
         for q in props:
             pid, ty, f = PROPS[q]
             if ty in ("str", "topic", "bin"):
-                pat = "if let Some ( value ) = properties . %s . as_ref ( ) {" % f
+                pat = "if let Some ( value ) = properties . %s . as_ref ( )" % f
             elif ty == "varint":
-                pat = "if let Some ( value ) = properties . %s {" % f
+                pat = "if let Some ( value ) = properties . %s" % f
             else:
-                pat = "if properties . %s . is_some ( ) {" % f
-            extra = " lemma_vlen_enc(properties.%s->Some_0.0 as nat);" % f if ty == "varint" else ""
+                pat = "if properties . %s . is_some ( )" % f
             occ = 2 if ty == "qos" else 1   # the inline arms (MaximumQoS, SubscriptionIdentifier) test the field once more for the duplicate check
-            w("@before %d `%s`" % (occ, pat))
-            w("  proof { lemma_%s_len_%s(p0, properties);%s }" % (name, q, extra))
-        w("@before `let last = properties . user_properties . last ( )`")
-        w("  proof { lemma_%s_len_UserProperty(p0, properties, user_property); }" % name)
+            if ty == "varint":
+                w("@before %d `%s`" % (occ, pat))
+                w("  proof { lemma_vlen_enc(properties.%s->Some_0.0 as nat); }" % f)
+            w("@after %d `%s`" % (occ, pat))
+            w("  proof {")
+            w("      let v = properties.%s->Some_0;" % f)
+            w("      let n = (sc.len() - 1 - reader.stream().len()) as nat;")
+            w("      lemma_%s_done_%s(s0, sc, property_len as nat, len0, p0, used, %s, properties, v, n, len as nat);" % (name, q, pt))
+            w("      used = used + 1 + n;")
+            w("  }")
+        w("@after `len += 1 + 4 + last . name . len ( )`")
+        w("  proof {")
+        w("      let n = (sc.len() - 1 - reader.stream().len()) as nat;")
+        w("      lemma_%s_done_UserProperty(s0, sc, property_len as nat, len0, p0, used, %s, properties, user_property, n, len as nat);" % (name, pt))
+        w("      used = used + 1 + n;")
+        w("  }")
         w("@before `if property_len as usize`")
         w("  proof { lemma_%s_head(reader.stream(), property_len as nat, len as nat, properties, used, %s); }" % (name, pt))
         w("@end")
@@ -300,13 +376,15 @@ def gen():
         w("@fn %s::encode" % ipath)
         w("@props C01 C02 C09 C10 C11 C14")
         if name == "ConnackProperties":
-            w("@trusted NOT PROVED: with 16 optional properties the single Verus query for this function exceeds the usable solver resource cap (rlimit ~1400, > 300 s); the contract is assumed. Its encode_len, its decoder and the 13 other (same macro-generated shape) encoders are proved.")
+            w("@trusted NOT PROVED: with 16 optional properties the single Verus query for this function exceeds the usable solver resource cap (the 16 conditional writes through `&mut W` make the query grow exponentially; measured 10 s at 4 steps, 160 s at 8, > cap at 12); the contract is assumed. Its encode_len, its decoder and the 13 other (same macro-generated shape) encoders are proved.")
         w("@attr #[verifier::rlimit(1200)]")
         w("@attr #[verifier::spinoff_prover]")
         w("@entry")
+        for ty in sorted(set(PROPS[q][1] for q in props)):
+            w("  hide(put_%s);" % ty)
         w("  let ghost w0 = writer.written();")
         w("  let ghost ups = self.user_properties@;")
-        w("  proof { reveal(%s_fields_ok); lemma_upto_mono_%s(*self); lemma_ups_len(ups); }" % (name, name))
+        w("  proof { lemma_body_len_%s(*self); }" % name)
         w("@loop 1")
         w("  @invariant")
         w("    #frame: idx_1 <= ups.len() && ups == self.user_properties@ && %s_ok(*self) && w0 == old(writer).written() && writer.written() == w0" % name)
@@ -316,28 +394,61 @@ def gen():
         w("    proof { reveal(%s_fields_ok); lemma_upto_mono_%s(*self); lemma_ups_take(ups, idx_1 as int); lemma_ups_mono(ups, idx_1 + 1); lemma_ups_len(ups); }" % (name, name))
         w("@before `sum_acc }`")
         w("  proof { assert(ups.take(ups.len() as int) =~= ups); lemma_ups_len(ups); }")
-        for k, q in enumerate(props):
-            occ, pat = len_anchor(q)
-            w("@before %d `%s`" % (occ, pat))
-            extra = ""
-            if PROPS[q][1] == "varint":
-                extra = " if let Some(x) = self.%s { lemma_vlen_enc(x.0 as nat); }" % PROPS[q][2]
-            rv = "reveal(enc_%s_upto_%d); " % (name, k) if k >= 1 else ""
-            w("  proof { %sassert(property_len == ups.len() + ups_sum4(ups) + enc_%s_upto_%d(*self).len());%s }" % (rv, name, k, extra))
-        w("@before `write_var_int ( writer ,`")
-        rv = "reveal(enc_%s_upto_%d); " % (name, len(props)) if props else ""
-        w("  proof { %sassert(property_len == ups.len() + ups_sum4(ups) + enc_%s_upto_%d(*self).len()); assert(property_len == enc_%s_body(*self).len()); }" % (rv, name, len(props), name))
+        B = "(ups.len() + ups_sum4(ups)) as nat"
+
+        def len_steps(final_anchor, final_extra):
+            for k, q in enumerate(props):
+                occ, pat = len_anchor(q)
+                w("@before %d `%s`" % (occ, pat))
+                w("  proof {")
+                if k == 0:
+                    w("      #len-0: assert(property_len as nat == %s);" % B)
+                else:
+                    w("      #len-%d: assert(property_len as nat == pl%d + %s_plen_%d(*self)) by { reveal(%s_plen_%d); }" % (k, k - 1, name, k, name, k))
+                    w("      lemma_%s_lstep_%d(*self, %s, pl%d, property_len as nat);" % (name, k, B, k - 1))
+                w("      lemma_%s_pbound_%d(*self);" % (name, k + 1))
+                if PROPS[q][1] == "varint":
+                    w("      if let Some(x) = self.%s { lemma_vlen_enc(x.0 as nat); }" % PROPS[q][2])
+                w("  }")
+                w("  let ghost pl%d: nat = property_len as nat;" % k)
+            w("@before `%s`" % final_anchor)
+            w("  proof {")
+            K = len(props)
+            if K:
+                w("      #len-%d: assert(property_len as nat == pl%d + %s_plen_%d(*self)) by { reveal(%s_plen_%d); }" % (K, K - 1, name, K, name, K))
+                w("      lemma_%s_lstep_%d(*self, %s, pl%d, property_len as nat);" % (name, K, B, K - 1))
+            else:
+                w("      #len-0: assert(property_len as nat == %s);" % B)
+            w("      #len-total: assert(property_len as nat == enc_%s_body(*self).len());" % name)
+            if final_extra:
+                w("      " + final_extra)
+            w("  }")
+
+        len_steps("write_var_int ( writer ,", "")
         w("@after `write_var_int ( writer ,`")
         w("  let ghost w1 = writer.written();")
         for k, q in enumerate(props):
-            if k == 0:
-                continue
             occ, pat = write_anchor(q)
             w("@before %d `%s`" % (occ, pat))
-            w("  proof { reveal(acc_%s_%d); assert(writer.written() == acc_%s_%d(w1, *self)); }" % (name, k, name, k))
+            if k >= 1:
+                pid, ty, f = PROPS[props[k - 1]]
+                w("  proof {")
+                w("      #wr-%d: assert(writer.written() == put_%s(wp%d, 0x%02Xu8, self.%s)) by { reveal(put_%s); }" % (k, ty, k - 1, pid, f, ty))
+                w("      lemma_%s_wstep_%d(w1, *self, wp%d, writer.written());" % (name, k, k - 1))
+                w("      assert(writer.can_fail() == old(writer).can_fail());")
+                w("  }")
+            w("  let ghost wp%d = writer.written();" % k)
         w("@before `{ let mut idx_2 : usize = 0 ;`")
-        rv = "reveal(acc_%s_%d); " % (name, len(props)) if props else ""
-        w("  proof { %sassert(writer.written() == acc_%s_%d(w1, *self)); assert(ups.take(0) =~= Seq::<UserProperty>::empty()); }" % (rv, name, len(props)))
+        w("  proof {")
+        if props:
+            K = len(props)
+            pid, ty, f = PROPS[props[K - 1]]
+            w("      #wr-%d: assert(writer.written() == put_%s(wp%d, 0x%02Xu8, self.%s)) by { reveal(put_%s); }" % (K, ty, K - 1, pid, f, ty))
+            w("      lemma_%s_wstep_%d(w1, *self, wp%d, writer.written());" % (name, K, K - 1))
+            w("      assert(writer.can_fail() == old(writer).can_fail());")
+        w("      assert(ups.take(0) =~= Seq::<UserProperty>::empty());")
+        w("      lemma_upsok_%s(*self);" % name)
+        w("  }")
         w("  let ghost w2 = writer.written();")
         w("@loop 2")
         w("  @invariant")
@@ -358,7 +469,7 @@ def gen():
         w("@attr #[verifier::spinoff_prover]")
         w("@entry")
         w("  let ghost ups = self.user_properties@;")
-        w("  proof { reveal(%s_fields_ok); lemma_upto_mono_%s(*self); lemma_ups_len(ups); }" % (name, name))
+        w("  proof { lemma_body_len_%s(*self); }" % name)
         w("@loop 1")
         w("  @invariant")
         w("    #frame: idx_1 <= ups.len() && ups == self.user_properties@ && %s_ok(*self) && len == 0" % name)
@@ -368,17 +479,7 @@ def gen():
         w("    proof { reveal(%s_fields_ok); lemma_upto_mono_%s(*self); lemma_ups_take(ups, idx_1 as int); lemma_ups_mono(ups, idx_1 + 1); lemma_ups_len(ups); }" % (name, name))
         w("@before `sum_acc }`")
         w("  proof { assert(ups.take(ups.len() as int) =~= ups); lemma_ups_len(ups); }")
-        for k, q in enumerate(props):
-            occ, pat = len_anchor(q)
-            w("@before %d `%s`" % (occ, pat))
-            extra = ""
-            if PROPS[q][1] == "varint":
-                extra = " if let Some(x) = self.%s { lemma_vlen_enc(x.0 as nat); }" % PROPS[q][2]
-            rv = "reveal(enc_%s_upto_%d); " % (name, k) if k >= 1 else ""
-            w("  proof { %sassert(property_len == ups.len() + ups_sum4(ups) + enc_%s_upto_%d(*self).len());%s }" % (rv, name, k, extra))
-        w("@before `len += property_len +`")
-        rv = "reveal(enc_%s_upto_%d); " % (name, len(props)) if props else ""
-        w("  proof { %sassert(property_len == ups.len() + ups_sum4(ups) + enc_%s_upto_%d(*self).len()); assert(property_len == enc_%s_body(*self).len()); lemma_vlen_enc(property_len as nat); }" % (rv, name, len(props), name))
+        len_steps("len += property_len +", "if property_len < 268435456 { lemma_vlen_enc(property_len as nat); }")
         w("@end")
         w("")
     return "\n".join(out) + "\n", "\n".join(dec_out) + "\n"
@@ -386,5 +487,7 @@ def gen():
 
 if __name__ == "__main__":
     a, b = gen()
-    open("/verif/contracts/v5props.vc", "w").write(a)
-    open("/verif/contracts/v5pdec.vc", "w").write(b)
+    import os
+    root = os.path.dirname(os.path.dirname(os.path.abspath(__file__)))
+    open(os.path.join(root, "contracts", "v5props.vc"), "w").write(a)
+    open(os.path.join(root, "contracts", "v5pdec.vc"), "w").write(b)
